@@ -83,7 +83,7 @@ def run_replica(binary, workdir, name, steps, mode, genesis=None, initial=0, sta
     if start == 0 and os.path.exists(out):
         os.remove(out)
     frm = start
-    for attempt in range(40):
+    for attempt in range(1000):   # one iteration per process: every restart step ends the process (rc 10)
         cmd = [binary, "replica", "--dir", os.path.join(d, "db"), "--script", sp, "--from", str(frm), "--mode", mode,
                "--cfg", json.dumps(CFG), "--out", out]
         if genesis:
@@ -96,6 +96,8 @@ def run_replica(binary, workdir, name, steps, mode, genesis=None, initial=0, sta
         if rc not in (0, 4, 5):
             raise MachineryError("replica %s failed rc=%d: %s" % (name, rc, o[-1500:]))
         break
+    else:
+        raise MachineryError("replica %s: the script did not finish (restart loop)" % name)
     return [json.loads(l) for l in open(out)]
 
 
@@ -221,45 +223,81 @@ def stream_from_trace(path, max_skip=30):
 
 
 def stream_scripts(blocks, rnd):
-    """(plain, with non-consensus noise, with restarts) scripts for one stream."""
-    plain, noisy, restarts = [], [], []
-    # the drivers put many transactions between two block events: cut the blocks smaller (same cut for all replicas)
-    cut = []
+    """(plain, noise A, noise B, restarts) scripts for one stream.
+
+    The driver's stream is first cut into smaller blocks (the same cut for all replicas) and seasoned with consensus
+    transactions that FAIL half-way: before some of the transactions that re-decide a node's role (Reset, AddVstorage,
+    delegations) a delegation far above the balance of somebody who already holds one is put into a block of its own: it
+    fails between the two staking hooks of x/node. Two ways of choosing that somebody:
+      A  the operator of a validator (his self-delegation is the largest there is);
+      B  the very account that acts next, on a validator it already delegates to (another one than it is about to use,
+         if there is a choice).
+    Then
+      noisyA / noisyB = the stream + such a transaction as a NON-consensus call (Simulate / CheckTx) directly before the
+                        block of EVERY transaction of those kinds, chosen the A resp. the B way;
+      restarts        = the stream with a restart right after every block in which a staking transaction failed, and at
+                        random."""
+    plain, noisy_a, noisy_b, restarts = [], [], [], []
+    deleg_on = {"vo1": ["v1"], "vo2": ["v2"]}   # who delegates where (successful delegations seen so far in the stream)
+
+    def poison(tx, how):
+        if how == "B" and deleg_on.get(tx["creator"]):
+            vals = [v for v in deleg_on[tx["creator"]] if v != tx.get("val")] or deleg_on[tx["creator"]]
+            who, val = tx["creator"], rnd.choice(vals)
+        else:
+            val = tx.get("val") if tx.get("val") in ("v1", "v2") and rnd.random() < 0.7 else rnd.choice(["v1", "v2"])
+            who = {"v1": "vo1", "v2": "vo2"}[val]
+        return {"kind": "Delegate", "creator": who, "val": val, "amount": 200000000}
+
+    cut = []   # {"txs", "skip", "failed_staking", "na": [...], "nb": [...]}
     for b in blocks:
-        cur = []
+        cur, na, nb = [], [], []
+
+        def close(failed=False, skip=0):
+            nonlocal cur, na, nb
+            cut.append({"txs": cur, "skip": skip, "failed_staking": failed, "na": na, "nb": nb})
+            cur, na, nb = [], [], []
+
         for tx in b["txs"]:
             failed = tx.pop("_failed", False)
-            cur.append(tx)
-            if failed or rnd.random() < 0.4:
-                cut.append({"txs": cur, "skip": 0, "failed_staking": failed})
-                cur = []
-        cut.append({"txs": cur, "skip": b["skip"], "failed_staking": False})
-    delegators = ["vo1", "vo2"]
-    for b in cut:
-        # noise aimed at whoever acts in this block: a delegation far above his balance fails between the two staking hooks
-        for tx in b["txs"]:
-            if tx["kind"] == "Delegate" and tx["creator"] not in delegators:
-                delegators.append(tx["creator"])
-            if tx["kind"] in STAKING_KINDS and rnd.random() < 0.6:
-                # ... attempted by the actor himself, or by anybody who holds a delegation (the operators hold the largest)
-                who = tx["creator"] if rnd.random() < 0.5 else rnd.choice(delegators)
-                val = {"vo1": "v1", "vo2": "v2"}.get(who, rnd.choice(["v1", "v2"]))
-                poison = {"kind": "Delegate", "creator": who, "val": val, "amount": 200000000}
-                noisy.append({"op": rnd.choice(["simulate", "checktx"]), "tx": poison})
+            target = tx["kind"] in STAKING_KINDS
+            if target and rnd.random() < (0.8 if tx["kind"] in ("Reset", "AddVstorage", "RemoveVstorage") else 0.15):
+                # a failing delegation IN the stream, in a block of its own, directly before the block of its target
+                if cur:
+                    close()
+                cur = [poison(tx, rnd.choice("AB"))]
+                close(failed=True)
+            if target:
+                # non-consensus noise aimed at this transaction: it becomes the first of a new block, the calls sit before it
+                if cur:
+                    close()
+                na.append({"op": rnd.choice(["simulate", "checktx"]), "tx": poison(tx, "A")})
+                nb.append({"op": rnd.choice(["simulate", "checktx"]), "tx": poison(tx, "B")})
             elif rnd.random() < 0.1:
-                noisy.append({"op": rnd.choice(["simulate", "checktx"]), "tx": tx})
-        if rnd.random() < 0.25:
+                na.append({"op": rnd.choice(["simulate", "checktx"]), "tx": tx})
+            cur.append(tx)
+            if tx["kind"] == "Delegate" and not failed and tx.get("val") in ("v1", "v2"):
+                deleg_on.setdefault(tx["creator"], [])
+                if tx["val"] not in deleg_on[tx["creator"]]:
+                    deleg_on[tx["creator"]].append(tx["val"])
+            if failed or rnd.random() < 0.4:
+                close(failed=failed)
+        close(skip=b["skip"])
+    for b in cut:
+        noisy_a += b["na"]
+        noisy_b += b["nb"]
+        if rnd.random() < 0.1:
             restarts.append({"op": "restart"})
-        for sc in (plain, noisy, restarts):
+        for sc in (plain, noisy_a, noisy_b, restarts):
             sc.append({"op": "block", "txs": b["txs"]})
         if b["failed_staking"]:
             restarts.append({"op": "restart"})
         if b["skip"]:
-            for sc in (plain, noisy, restarts):
+            for sc in (plain, noisy_a, noisy_b, restarts):
                 sc.append({"op": "blocks", "n": b["skip"]})
-    for sc in (plain, noisy, restarts):
+    for sc in (plain, noisy_a, noisy_b, restarts):
         sc.append({"op": "blocks", "n": 2})
-    return plain, noisy, restarts
+    return plain, noisy_a, noisy_b, restarts
 
 
 def export_roundtrip(binary, workdir, name, steps, cut, entry):
@@ -332,17 +370,17 @@ def random_streams(binary, workdir, tier, seed):
                 os.rename(os.path.join(tdir, f), os.path.join(tdir, "used-" + f))
                 if not blocks:
                     continue
-                plain, noisy, restarts = stream_scripts(blocks, rnd)
+                plain, noisy_a, noisy_b, restarts = stream_scripts(blocks, rnd)
                 name = "S%02d" % k
                 k += 1
                 ra = run_replica(binary, workdir, name + "a", plain, "plain")
                 ba = blocks_of(ra)
                 entry = {"stream": f, "blocks": len(ba), "txs": sum(len(b["txs"]) for b in blocks),
-                         "noise_calls": sum(1 for s in noisy if s["op"] in ("simulate", "checktx")),
+                         "noise_calls": sum(1 for s in noisy_a + noisy_b if s["op"] in ("simulate", "checktx")),
                          "restarts": sum(1 for s in restarts if s["op"] == "restart")}
                 if any(r["op"] == "halt" for r in ra):
                     violations.append({"formula": "C02_NoHaltABCI", "detail": "replica halted on stream %s: %s" % (f, [r.get("note") for r in ra if r["op"] == "halt"]), "script": name + "a"})
-                for tag, script, formula in (("n", noisy, "C01_Agreement"), ("r", restarts, "C03_RestartAgreement")):
+                for tag, script, formula in (("n", noisy_a, "C01_Agreement"), ("m", noisy_b, "C01_Agreement"), ("r", restarts, "C03_RestartAgreement")):
                     rb = run_replica(binary, workdir, name + tag, script, "full")
                     d = compare_blocks(ba, blocks_of(rb))
                     entry["agree_" + tag] = d is None
@@ -451,4 +489,4 @@ def replicas_run(binary, workdir, tier, seed):
     rs = random_streams(binary, workdir, tier, seed)
     violations += rs["violations"]
     return {"model": mc, "schedules": runs, "c18": c18, "streams": rs["streams"], "violations": violations, "wall_s": round(time.time() - t0, 1),
-            "blocks_compared": sum(len(blkA) for _ in runs) + 2 * sum(e["blocks"] for e in rs["streams"])}
+            "blocks_compared": sum(len(blkA) for _ in runs) + 3 * sum(e["blocks"] for e in rs["streams"])}
